@@ -65,6 +65,7 @@ type SolveConfig struct {
 	Workers  int
 	Thorough bool
 	KeepDir  string
+	BudgetS  int // wall-clock budget for the whole discharge phase (0 = none)
 }
 
 // Discharge runs all non-structural obligations through the solver portfolio.
@@ -79,7 +80,14 @@ func Discharge(obls []*Obligation, cfg SolveConfig) (solverMs map[string]int64, 
 	var mu sync.Mutex
 	sem := make(chan struct{}, cfg.Workers)
 	var wg sync.WaitGroup
+	start := time.Now()
 	for i, o := range obls {
+		if cfg.BudgetS > 0 && !o.Structural && time.Since(start) > time.Duration(cfg.BudgetS)*time.Second {
+			o.Status = "failed"
+			o.Solver = "budget"
+			o.Output = "time budget of the check exhausted before this obligation was tried"
+			continue
+		}
 		if o.Structural {
 			if o.StructOK {
 				o.Status = "discharged"
